@@ -79,7 +79,51 @@ def rule_passthrough(ctx, param: str) -> RuleResult:
                         res.inst(f"{f.qualname} -> {q}: {param} carried in **kwargs", f"{f.qualname}|{q}")
                         continue
                 if is_partial and given is None:
-                    continue      # a partial may leave the parameter to the final call
+                    # a partial may leave the parameter to the final call -- when it is bound to a local name, every use of that name in
+                    # this function must then supply it: a call `L(..., param=...)`, or a hand-over `submit(L, ..., param=...)` whose
+                    # keywords reach the callee; `executor.map(L, ...)` / `map(L, ...)` cannot, so the callee's default would be used
+                    par = pm.get(id(call))
+                    if isinstance(par, ast.Call) and par.args and par.args[0] is call and isinstance(par.func, ast.Attribute) and par.func.attr in ("map", "submit", "starmap", "imap") \
+                            and not any(k.arg is None for k in par.keywords):
+                        supplied = kwarg(par, param)
+                        cl = cl or Closure(ctx, f)
+                        okp = supplied is not None and param in cl.of(supplied)["params"]
+                        res.inst(f"{f.qualname} -> {q}: inline partial handed to '{norm(par.func)}': {param} " + (f"= {norm(supplied)[:30]}" if supplied is not None else "omitted"),
+                                 f"{f.qualname}|{q}|inline-partial|{norm(par.func)}")
+                        if not okp and f.qualname not in pins:
+                            res.report(f"{f.qualname}|{param}-not-forwarded|{q}|inline-partial", f.where(par), f.qualname,
+                                       f"'{norm(par)[:80]}' runs {q} through a partial that does not bind `{param}` and does not supply it either: "
+                                       f"this arm runs with the callee's default `{param}` while its sibling uses the caller's")
+                    if isinstance(par, ast.Assign) and len(par.targets) == 1 and isinstance(par.targets[0], ast.Name):
+                        L = par.targets[0].id
+                        for use in walk_own(f.node):
+                            if not (isinstance(use, ast.Name) and use.id == L and isinstance(use.ctx, ast.Load)):
+                                continue
+                            up = pm.get(id(use))
+                            if not isinstance(up, ast.Call):
+                                continue
+                            handover = isinstance(up.func, ast.Attribute) and up.func.attr in ("map", "submit", "starmap", "imap") or norm(up.func) in ("map", "itertools.starmap")
+                            if not (up.func is use or (handover and up.args and up.args[0] is use)):
+                                continue      # composed / re-wrapped: decided where the wrapper is finally called
+                            supplied = kwarg(up, param)
+                            if up.func is use and supplied is None and param in sg.pos:
+                                idx = sg.pos.index(param) - npos_bound - (len(call.args) - 1)
+                                if 0 <= idx < len(up.args):
+                                    supplied = up.args[idx]
+                            if supplied is None and any(k.arg is None for k in up.keywords):
+                                continue
+                            cl = cl or Closure(ctx, f)
+                            okp = False
+                            if supplied is not None:
+                                c = cl.of(supplied)
+                                okp = param in c["params"] and c["names"] <= {param, "bool"}
+                            res.inst(f"{f.qualname} -> {q}: partial bound to `{L}`, used as '{norm(up)[:40]}': {param} "
+                                     + (f"= {norm(supplied)[:30]}" if supplied is not None else "omitted"), f"{f.qualname}|{q}|partial-use|{norm(up)[:40]}")
+                            if not okp and f.qualname not in pins:
+                                res.report(f"{f.qualname}|{param}-not-forwarded|{q}|via-{L}", f.where(up), f.qualname,
+                                           f"'{norm(up)[:70]}' runs {q} through the partial `{L}`, which does not bind `{param}`, and does not supply it either: "
+                                           f"this arm silently runs with the callee's default `{param}` while its sibling uses the caller's")
+                    continue
                 key = f"{f.qualname}|{q}|{norm(call)[:40]}"
                 if given is None:
                     ok = False
